@@ -482,7 +482,16 @@ func indexCommand(cmd *Command) (uniqueLens docLens, termFreqs map[string]fieldT
 
 func (db *Database) collectResults(scores map[int]float64, pq *nlp.ProcessedQuery, options SearchOptions) []SearchResult {
 	results := make([]SearchResult, 0, utils.Min(len(scores), options.Limit*3))
-	for docID, score := range scores {
+	// Walk the accumulator in document order, not in map order: the sorts below only
+	// compare scores, so the order in which equal-scoring commands arrive decides their
+	// final order and which of them survive the limit.
+	docIDs := make([]int, 0, len(scores))
+	for docID := range scores {
+		docIDs = append(docIDs, docID)
+	}
+	sort.Ints(docIDs)
+	for _, docID := range docIDs {
+		score := scores[docID]
 		cmd := &db.Commands[docID]
 
 		// Apply intent-based boost if NLP is active
